@@ -95,6 +95,14 @@ func (r *Report) Check(cond bool, rule, construct string, pos token.Pos, okDetai
 
 func (r *Report) Count(what string, n int) { r.Analysed[what] += n }
 
+// StandsFor: the instance just recorded sits in a helper that is called from n
+// places, i.e. it stands for n instances of the rule (n-1 more than counted).
+func (r *Report) StandsFor(rule string, n int) {
+	if ri := r.Rules[rule]; ri != nil && n > 1 {
+		ri.Count += n - 1
+	}
+}
+
 // guard runs a rule body; a lost anchor (undecided panic) becomes an open
 // obligation of that rule, any other panic propagates (exit 2).
 func (r *Report) guard(rule string, body func()) {
